@@ -61,6 +61,9 @@ def under(pc, bv, const):
         if b == want:
             continue
         if not bit.implies(pc, b ^ want):
+            if any(isinstance(a, str) and a.startswith('C{') for mo in (b if not isinstance(b, int) else ()) for a in mo):
+                # the bit is an uninterpreted comparison: the analysis cannot tell, which is not a refutation
+                raise Unsupported('result bit %d is an uninterpreted comparison (%s)' % (i, bit.fmt_bit(b)))
             return False
     return True
 
@@ -179,9 +182,11 @@ def run(ctx):
         rep.unk('U2', 'a_utf_encode[buf=NULL]', str(e))
     arbitrary(rep, dec, lk)
     length_loop(ctx)
+    lead_loop(ctx, lk)
     rep.floor('U3', 7)
     rep.floor('U2', 8)
     rep.floor('U4', 6 * 2 + 15)
+    rep.floor('U6', 1)
     rep.floor('U1d', 8)
     fixtures(ctx)
 
@@ -320,6 +325,7 @@ class LenDom(alg.Alg):
             if not isinstance(p, Ptr):
                 return NotImplemented
             self.last = (p, n, v)
+            self.calls = getattr(self, 'calls', []) + [(p, n, v)]
             return self.sym('d', integer=True, nonnegative=True)
         return NotImplemented
 
@@ -371,13 +377,41 @@ def length_loop(ctx):
         g = [c for c in s1.pc if isinstance(c, alg.Cond)]
         if not any(c.rel() == '!=' and c.a == dsym and c.b == 0 for c in g):
             probs.append('loop guard %s, expected reported length != 0' % g)
-        # the decoder is re-invoked on (cursor, remaining)
-        p, n, v = dom.last
-        if not (isinstance(p, Ptr) and p.base == 'in' and alg.is_zero(sp.sympify(p.off) - sp.sympify(nv[roles['p']].off))
-                and alg.is_zero(sp.sympify(n) - nv[roles['n']])):
-            probs.append('decoder is called on (%s, %s), expected (cursor, remaining)' % (p, n))
+        # the decoder is invoked on (cursor, remaining): either once in front of the loop and again at the end of the body on the
+        # advanced values (the reported length is carried into the next iteration), or at the head of every iteration on the current ones
+        def on(call, off, rem):
+            p, n, v = call
+            return isinstance(p, Ptr) and p.base == 'in' and alg.is_zero(sp.sympify(p.off) - sp.sympify(off)) and alg.is_zero(sp.sympify(n) - sp.sympify(rem))
+        calls = getattr(dom, 'calls', [])
+        if 'd' in roles:
+            if len(calls) != 2 or not on(calls[0], 0, num):
+                probs.append('first decoder call is on %s, expected (ptr, num)' % (calls[:1],))
+            if not calls or not on(calls[-1], nv[roles['p']].off, nv[roles['n']]):
+                probs.append('decoder is called on (%s, %s), expected (cursor, remaining)' % (calls[-1][0], calls[-1][1]) if calls else 'decoder is not called')
+        else:
+            if len(calls) != 1 or not on(calls[0], o, tx.sym[roles['n']]):
+                probs.append('decoder is called on %s, expected (cursor, remaining)' % (calls,))
+        if not isinstance(tx.init[roles['p']], Ptr) or tx.init[roles['p']].base != 'in' or not alg.is_zero(sp.sympify(tx.init[roles['p']].off)):
+            probs.append('cursor starts at %r' % (tx.init[roles['p']],))
+        # behind the loop: the count is returned and *stop (when given) receives the cursor position
+        L = tx.sym[roles['len']]
+        if not tx.finals:
+            raise Unsupported('the code behind the loop could not be followed to the return')
+        stored = 0
+        for s_f, r_f in tx.finals:
+            if r_f is None or not alg.is_zero(sp.sympify(r_f) - L):
+                probs.append('returns %s, expected the count' % (r_f,))
+            w = s_f.store.get(('stop', 0))
+            if w is not None:
+                stored += 1
+                if not alg.is_zero(sp.sympify(w[0]) - sp.sympify(o)):
+                    probs.append('*stop receives %s, expected the cursor position %s' % (w[0], o))
+            if any(k[0] not in ('stop',) and not str(k[0]).startswith('alloca') for k in s_f.store):
+                probs.append('writes to %s' % sorted(set(str(k[0]) for k in s_f.store)))
+        if stored != 1:
+            probs.append('*stop is written on %d of %d exits, expected on the one with stop != NULL' % (stored, len(tx.finals)))
         if probs:
-            rep.bad('U5', 'a_utf_length', '; '.join(probs), loc=loc, key='a_utf_length: loop')
+            rep.bad('U5', 'a_utf_length', '; '.join(sorted(set(probs))), loc=loc, key='a_utf_length: loop')
         else:
             rep.ok('U5', 'a_utf_length', 'advances cursor and remaining count by exactly the reported length, counts one per sequence, stops at the first 0',
                    loc=loc, sample={'cursor': str(nv[roles['p']].off), 'remaining': str(nv[roles['n']])})
@@ -398,3 +432,155 @@ def fixtures(ctx):
         ctx.rep.ok('FIXTURE', 'bit-refine', 'range refinement and implication controls pass')
     else:
         ctx.rep.unk('FIXTURE', 'bit-refine', 'positive control failed')
+
+
+def _eval_pc(pc, env):
+    """truth of the byte-dependent part of a path condition under a concrete byte (conditions on the counters are skipped)"""
+    for c in pc:
+        if isinstance(c, BV):
+            b = bit.subst_bit(c.bits[0], env)
+            if b == ZERO:
+                return False
+            if b != ONE:
+                raise Unsupported('condition %s does not depend on the lead byte only' % bit.fmt_bit(b))
+        elif isinstance(c, bit.Cond):
+            if isinstance(c.a, Lin) or isinstance(c.b, Lin):
+                continue
+            a = c.a.subst(env) if hasattr(c.a, 'subst') else c.a
+            b = c.b.subst(env) if hasattr(c.b, 'subst') else c.b
+            va = a.value() if isinstance(a, BV) else None
+            vb = b.value() if isinstance(b, BV) else None
+            if va is None or vb is None:
+                raise Unsupported('comparison %s does not depend on the lead byte only' % (c,))
+            r = {'eq': va == vb, 'ne': va != vb, 'ult': va < vb, 'ule': va <= vb, 'ugt': va > vb, 'uge': va >= vb}.get(c.pred)
+            if r is None:
+                raise Unsupported('signed comparison %s on the lead byte' % (c,))
+            if r != c.pos:
+                return False
+    return True
+
+
+def lead_loop(ctx, lk):
+    """U6: a_utf_length_ - the counter that trusts the lead byte.  One abstract iteration with the cursor offset o, the count L and the
+    byte under the cursor symbolic; the path conditions are evaluated for all 256 values of that byte, which yields the complete
+    table lead byte -> advance; it must be the UTF-8 lead table (110x xxxx -> 2 ... 1111 110x -> 6, anything else 1, NUL stops)."""
+    rep = ctx.rep
+    fn = ctx.fn('utf', 'a_utf_length_')
+    if fn is None:
+        rep.unk('U6', 'a_utf_length_', 'anchor vanished')
+        return
+    loc = fn.loc(fn.entry.instrs[0])
+    try:
+        dom = bit.Bit()
+        roles = {}
+
+        def bind(ph, init):
+            if ph.ty.is_ptr:
+                roles['p'] = ph.res
+                return Ptr('in', Off(0, [(('lin', 'o'), 1)]))
+            roles['len'] = ph.res
+            return Lin.sym('L', 64)
+        NUM, O, L = Lin.sym('num', 64), Lin.sym('o', 64), Lin.sym('L', 64)
+        tx = looptx.transformer(fn, lk, [Ptr('in', 0), NUM], dom, bind)
+        if set(roles) != {'p', 'len'} or len(tx.phis) != 2:
+            raise Unsupported('loop does not have the (cursor, count) shape')
+        probs = []
+        ip = tx.init[roles['p']]
+        if not (isinstance(ip, Ptr) and ip.base == 'in' and ip.off == 0):
+            probs.append('cursor starts at %r' % (ip,))
+        if dom.concrete(tx.init[roles['len']]) != 0:
+            probs.append('count starts at %r' % (tx.init[roles['len']],))
+        cur_key = dom.off_key(Off(0, [(('lin', 'o'), 1)]))
+        reads = [k for k in tx.interp.entry_syms if k[0] == 'in']
+        if len(reads) != 1 or dom.off_key(reads[0][1]) != cur_key or reads[0][2] != 'i8':
+            probs.append('reads %s, expected the byte under the cursor only' % [(k[1], k[2]) for k in reads])
+            raise Unsupported('; '.join(probs))
+        B = tx.interp.entry_syms[reads[0]]
+        atoms = []
+        for b in B.bits:
+            (mo,) = tuple(b)
+            (a,) = tuple(mo)
+            atoms.append(a)
+
+        def o_rel_num(c):
+            """the relation cursor REL num a condition states, in whichever spelling (num > o, !(o >= num), ...)"""
+            if not isinstance(c, bit.Cond) or c.pred not in ('ult', 'ule', 'ugt', 'uge'):
+                return None
+            r = {'ult': '<', 'ule': '<=', 'ugt': '>', 'uge': '>='}[c.pred]
+            if c.a == NUM and c.b == O:
+                r = {'<': '>', '<=': '>=', '>': '<', '>=': '<='}[r]
+            elif not (c.a == O and c.b == NUM):
+                return None
+            if not c.pos:
+                r = {'<': '>=', '<=': '>', '>': '<=', '>=': '<'}[r]
+            return r
+
+        def inside(pc):
+            return any(o_rel_num(c) == '<' for c in pc)
+        finals = tx.finals
+        if finals is None:
+            raise Unsupported('the code behind the loop could not be followed to the return')
+        aset = set(atoms)
+
+        def mentions(pc):
+            for c in pc:
+                for v in ([c] if isinstance(c, BV) else [c.a, c.b] if isinstance(c, bit.Cond) else []):
+                    if isinstance(v, BV) and any(a in aset for b in v.bits for mo in b for a in mo):
+                        return True
+            return False
+        states = [(s_, 'back') for s_, _ in tx.backs] + [(s_, 'exit') for s_, _ in finals]
+        for s_, kind in states:
+            if mentions(s_.pc_raw) and not inside(s_.pc_raw):
+                probs.append('the byte under the cursor is read on a path without the test cursor < num')
+            if any(not str(k[0]).startswith('alloca') for k in s_.store):
+                probs.append('writes memory')
+        # the complete table lead byte -> (advance | stop)
+        table = {}
+        for v in range(256):
+            env = dict((a, ONE if (v >> i) & 1 else ZERO) for i, a in enumerate(atoms))
+            hit = []
+            for s_, nv in tx.backs:
+                if _eval_pc(s_.pc_raw, env):
+                    np_ = nv[roles['p']]
+                    adv = None
+                    if isinstance(np_, Ptr) and np_.base == 'in' and isinstance(np_.off, Off) and dict(np_.off.t) == {('lin', 'o'): 1}:
+                        adv = np_.off.c
+                    if nv[roles['len']] != L.add(1):
+                        probs.append('count becomes %r, expected count + 1' % (nv[roles['len']],))
+                    hit.append(adv)
+            stops = [1 for s_, r_ in finals if inside(s_.pc_raw) and _eval_pc(s_.pc_raw, env)]
+            if len(hit) + (1 if stops else 0) != 1:
+                probs.append('lead byte 0x%02X takes %d continuing paths and %d stopping ones' % (v, len(hit), len(stops)))
+                continue
+            table[v] = hit[0] if hit else 'stop'
+        want = {}
+        for v in range(256):
+            n = 1
+            for k in range(2, 7):
+                if v >> (7 - k) == (1 << (k + 1)) - 2:
+                    n = k
+            want[v] = 'stop' if v == 0 else n
+        diff = [v for v in range(256) if v in table and table[v] != want[v]]
+        if diff:
+            v = diff[0]
+            probs.append('lead byte 0x%02X: %s, expected %s (%d of 256 table entries differ)' % (
+                v, 'stops' if table[v] == 'stop' else 'advances by %s' % table[v], 'stop' if want[v] == 'stop' else 'advance by %d' % want[v], len(diff)))
+        # behind the loop: the last sequence is not counted when it runs past num
+        for s_, r_ in finals:
+            over = any(o_rel_num(c) == '>' for c in s_.pc_raw)
+            notover = any(o_rel_num(c) in ('<=', '<') for c in s_.pc_raw)
+            if not over and not notover:
+                probs.append('an exit does not compare the cursor with num (%s)' % (s_.pc_raw,))
+            exp = L.add(-1) if over else L
+            if r_ != exp:
+                probs.append('returns %r %s, expected %r' % (r_, 'when the cursor overshot num' if over else 'when the cursor stopped inside num', exp))
+        if not finals:
+            probs.append('no exit')
+        if probs:
+            rep.bad('U6', 'a_utf_length_', '; '.join(sorted(set(probs))[:3]), loc=loc, key='a_utf_length_: lead table')
+        else:
+            rep.ok('U6', 'a_utf_length_', 'reads only the byte under the cursor and only behind cursor < num; all 256 lead bytes advance by the UTF-8 lead table '
+                   '(NUL stops), one count per sequence; a sequence running past num is not counted', loc=loc,
+                   sample={'table': {'0xC2': table.get(0xC2), '0xE0': table.get(0xE0), '0xF0': table.get(0xF0), '0xF8': table.get(0xF8), '0xFC': table.get(0xFC), '0xFE': table.get(0xFE), '0x80': table.get(0x80)}})
+    except Unsupported as e:
+        rep.unk('U6', 'a_utf_length_', str(e), loc=loc)
